@@ -24,9 +24,19 @@ void Section::leave(int point_kind) {
   inside = -1;
 }
 
+static std::vector<char> g_evaluating;
+void mark_evaluating(int task, bool on) {
+  if (task < 0) return;
+  if ((size_t)task >= g_evaluating.size()) g_evaluating.resize((size_t)task + 8, 0);
+  g_evaluating[(size_t)task] = on;
+}
+bool is_evaluating(int task) { return task >= 0 && (size_t)task < g_evaluating.size() && g_evaluating[(size_t)task]; }
+
 void install_phase_observer() {
-  sim::set_mutex_observer([](int op, long index, int) {
+  g_evaluating.assign(64, 0);
+  sim::set_mutex_observer([](int op, long index, int task) {
     if (op == 0) {
+      mark_evaluating(task, false);
       // role of the mutex by creation order: 0,1 = application members
       // (frame counter, reader), then alternating input / output ring, see CsgApplication::Run
       long role = index < 2 ? index : 2 + (index - 2) % 2;
